@@ -771,7 +771,10 @@ Section Compile.
           | _, _, _ =>
               (* three-part loop *)
               open_block ;; push_loop false ;;
-              do ic <- (match init with Some i => compile i | None => ret [] end);
+              do ic <- (match init with
+                        | Some i => do x <- compile i; ret (x ++ (if is_expression i then I [opPopTop] else []))
+                        | None => ret []
+                        end);
               do cc <- (match cond with Some c => compile c | None => ret [] end);
               do b <- compile_block body;
               do pc <- (match post with
